@@ -28,6 +28,8 @@ pub struct StepSpec {
     pub kind: StepKind,
     /// Plan key ("S:s12:3", "B:f2:0", "B:r5:1").
     pub unit: String,
+    pub doc: Option<String>,
+    pub table: Option<Vec<Vec<String>>>,
 }
 
 #[derive(Clone, Debug)]
@@ -528,7 +530,7 @@ impl Gen<'_> {
             let b = self.behav_seq(self.p.p_fail_unit);
             self.plan.insert(unit.clone(), b);
         }
-        StepSpec { kw, text, kind, unit }
+        StepSpec { kw, text, kind, unit, doc: None, table: None }
     }
 
     fn tags(&mut self, level: u8) -> Vec<String> {
@@ -775,8 +777,8 @@ fn g_step(s: &StepSpec, line: &mut usize) -> gherkin::Step {
         keyword: format!("{keyword} "),
         ty,
         value: s.text.clone(),
-        docstring: None,
-        table: None,
+        docstring: s.doc.clone(),
+        table: s.table.as_ref().map(|rows| gherkin::Table { rows: rows.clone(), span: span(*line), position: lc(*line) }),
         span: span(*line),
         position: lc(*line),
     }
